@@ -1,34 +1,134 @@
 package main
 
 import (
+	"flag"
+	"go/types"
 	"fmt"
 	"os"
+	"sort"
+	"strings"
 
 	"golang.org/x/tools/go/packages"
 	"golang.org/x/tools/go/ssa"
 	"golang.org/x/tools/go/ssa/ssautil"
 )
 
-func main() {
-	cfg := &packages.Config{Mode: packages.LoadAllSyntax, Dir: "/repo", Env: append(os.Environ(), "GOFLAGS=-mod=mod", "GOPROXY=off", "GOSUMDB=off", "GOTOOLCHAIN=local")}
-	pkgs, err := packages.Load(cfg, os.Args[1])
-	if err != nil {
-		panic(err)
+func loadProgram(repo, verifDir string) (*Prog, error) {
+	cfg := &packages.Config{
+		Mode: packages.NeedName | packages.NeedFiles | packages.NeedCompiledGoFiles | packages.NeedImports |
+			packages.NeedTypes | packages.NeedTypesSizes | packages.NeedSyntax | packages.NeedTypesInfo | packages.NeedDeps | packages.NeedModule,
+		Dir: repo,
+		Env: append(os.Environ(), "GOFLAGS=-mod=mod", "GOPROXY=off", "GOSUMDB=off", "GOTOOLCHAIN=local"),
 	}
-	prog, spkgs := ssautil.AllPackages(pkgs, ssa.NaiveForm|ssa.GlobalDebug)
+	pkgs, err := packages.Load(cfg, "./...")
+	if err != nil {
+		return nil, err
+	}
+	var bad []string
+	packages.Visit(pkgs, nil, func(p *packages.Package) {
+		for _, e := range p.Errors {
+			if strings.HasPrefix(p.PkgPath, "github.com/coredhcp/coredhcp") {
+				bad = append(bad, e.Error())
+			}
+		}
+	})
+	if len(bad) > 0 {
+		return nil, fmt.Errorf("repository does not type-check:\n%s", strings.Join(bad, "\n"))
+	}
+	prog, _ := ssautil.Packages(pkgs, ssa.NaiveForm|ssa.GlobalDebug)
 	prog.Build()
-	for _, p := range spkgs {
-		if p == nil {
+	p := &Prog{W: NewWorld(), CS: NewContracts(), SSA: prog, Pkgs: map[string]*packages.Package{}, funcs: map[string]*ssa.Function{}}
+	packages.Visit(pkgs, nil, func(pk *packages.Package) {
+		p.Pkgs[pk.PkgPath] = pk
+		if p.Fset == nil {
+			p.Fset = pk.Fset
+		}
+	})
+	p.ModPath = "github.com/coredhcp/coredhcp"
+	for _, pk := range pkgs {
+		if pk.Module != nil && pk.Module.Main {
+			p.ModPath = pk.Module.Path
+		}
+	}
+	for _, sp := range prog.AllPackages() {
+		if !strings.HasPrefix(sp.Pkg.Path(), p.ModPath) {
 			continue
 		}
-		for _, m := range p.Members {
-			if f, ok := m.(*ssa.Function); ok {
-				f.WriteTo(os.Stdout)
-				for _, af := range f.AnonFuncs {
-					af.WriteTo(os.Stdout)
+		for _, m := range sp.Members {
+			switch m := m.(type) {
+			case *ssa.Function:
+				p.addFunc(m)
+			case *ssa.Type:
+				mset := prog.MethodSets.MethodSet(m.Type())
+				for i := 0; i < mset.Len(); i++ {
+					if f := prog.MethodValue(mset.At(i)); f != nil && f.Synthetic == "" {
+						p.addFunc(f)
+					}
+				}
+				pm := prog.MethodSets.MethodSet(types.NewPointer(m.Type()))
+				for i := 0; i < pm.Len(); i++ {
+					if f := prog.MethodValue(pm.At(i)); f != nil && f.Synthetic == "" {
+						p.addFunc(f)
+					}
 				}
 			}
 		}
 	}
-	fmt.Println("ok")
+	if err := p.CS.LoadAll(repo, p.ModPath, verifDir+"/contracts/assumed"); err != nil {
+		return nil, err
+	}
+	return p, nil
+}
+
+func (p *Prog) addFunc(f *ssa.Function) {
+	p.funcs[funcKey(f)] = f
+	for _, af := range f.AnonFuncs {
+		p.addFunc(af)
+	}
+}
+
+func main() {
+	if len(os.Args) < 2 {
+		fmt.Fprintln(os.Stderr, "usage: govc check|dump|units ...")
+		os.Exit(2)
+	}
+	switch os.Args[1] {
+	case "dump":
+		fs := flag.NewFlagSet("dump", flag.ExitOnError)
+		repo := fs.String("repo", "/repo", "")
+		fs.Parse(os.Args[2:])
+		p, err := loadProgram(*repo, "/verif")
+		if err != nil {
+			fmt.Fprintln(os.Stderr, err)
+			os.Exit(2)
+		}
+		var keys []string
+		for k := range p.funcs {
+			keys = append(keys, k)
+		}
+		sort.Strings(keys)
+		for _, k := range keys {
+			match := len(fs.Args()) == 0
+			for _, a := range fs.Args() {
+				if strings.Contains(k, a) {
+					match = true
+				}
+			}
+			if match {
+				fmt.Println("### key:", k)
+				p.funcs[k].WriteTo(os.Stdout)
+			}
+		}
+	case "check":
+		os.Exit(cmdCheck(os.Args[2:]))
+	case "replay":
+		if len(os.Args) < 3 {
+			fmt.Fprintln(os.Stderr, "usage: govc replay <file>")
+			os.Exit(2)
+		}
+		os.Exit(cmdReplay(os.Args[2], "/repo"))
+	default:
+		fmt.Fprintln(os.Stderr, "unknown command", os.Args[1])
+		os.Exit(2)
+	}
 }
